@@ -2,6 +2,7 @@ import DcmVerif.Model.Wrap
 /-! Proofs about the wrapper-level model (`Model/Wrap.lean`): voxel data and affines of
 `NiftiWrapper.split` / `NiftiWrapper.from_sequence`, the fill of `DicomStack.get_data`. -/
 set_option autoImplicit false
+set_option linter.unusedSimpArgs false
 
 namespace Wrap
 variable {α : Type}
@@ -533,5 +534,395 @@ theorem mergeAff_consistent (first second : Aff) (rest : List Aff) (dim : Nat) (
     simp only [Aff.col] at h0 h1
     simp only [Aff.apply, Aff.setCol, ht, h0, h1, V3.add, V3.smul, V3.sub, V3.mk.injEq]
     refine ⟨?_, ?_, ?_⟩ <;> grind
+
+/-! ### split, then merge: the voxel data -/
+
+theorem mergeData_spec' (blank : α) (inputs : List (Arr α)) (dim : Nat) (s : List Nat)
+    (hne : inputs ≠ []) (hsh : ∀ a ∈ inputs, a.shape = s) (hdim : dim < 5) (hs : Singular s dim) :
+    ∃ r, mergeData blank inputs dim = .ok r ∧ r.shape = mergeShape s dim inputs.length ∧
+      ∀ (i : Nat) (a : Arr α), inputs[i]? = some a → ∀ x, InRange s x →
+        r.el (embed x dim i) = a.el x := by
+  obtain ⟨r, h1, h2, h3⟩ := mergeData_spec blank inputs dim s hne hsh hdim hs
+  refine ⟨r, h1, h2, ?_⟩
+  intro i a hi x hx
+  obtain ⟨hlt, rfl⟩ := List.getElem?_eq_some_iff.1 hi
+  exact h3 i hlt x hx
+
+theorem splitAll_get? (a : Arr α) (dim i : Nat) (hi : i < a.shape.getD dim 0) :
+    (splitAll a dim)[i]? = some (splitData a dim i) := by
+  simp only [splitAll]
+  rw [List.getElem?_map, List.getElem?_range hi]
+  rfl
+
+theorem rt3 (blank : α) (el : List Nat → α) (a b c dim : Nat) (hd : dim < 3) 
+    (hn : 0 < ([a,b,c] : List Nat).getD dim 0) :
+    ∃ r, mergeData blank (splitAll ⟨[a,b,c], el⟩ dim) dim = .ok r ∧ r.shape = [a,b,c] ∧
+      ∀ x, InRange [a,b,c] x → r.el x = el x := by
+  have hsh : ∀ p ∈ splitAll ⟨[a,b,c], el⟩ dim, p.shape = trimShape 3 (([a,b,c] : List Nat).set dim 1) := by
+    intro p hp
+    simp only [splitAll, List.mem_map, List.mem_range] at hp
+    obtain ⟨i, _, rfl⟩ := hp
+    exact (split3 el a b c dim i hd).1
+  have hne : splitAll ⟨[a,b,c], el⟩ dim ≠ [] := by
+    intro h; have := congrArg List.length h; simp [splitAll] at this; simp at hn; omega
+  have hd' : dim = 0 ∨ dim = 1 ∨ dim = 2 := by omega
+  rcases hd' with h | h | h <;> subst h
+  · obtain ⟨r, h1, h2, h3⟩ := mergeData_spec' blank _ 0 _ hne hsh (by omega) (by simp [trimShape, Singular, InRange, mergeShape, splitAll])
+    refine ⟨r, h1, by simp [h2, trimShape, Singular, InRange, mergeShape, splitAll], ?_⟩
+    intro x hx
+    obtain ⟨x0, x1, x2, rfl, h0', h1', h2'⟩ := inRange3 hx
+    have hxd : x0 < ([a,b,c] : List Nat).getD 0 0 := by simpa using h0'
+    have := h3 x0 _ (splitAll_get? _ 0 x0 hxd) [0, x1, x2] (by simp [trimShape, Singular, InRange, mergeShape, splitAll, *])
+    rw [(split3 el a b c 0 x0 (by omega)).2 _ (by simp [splitData, splitSpecs, splitSpec, Arr.index, viewShape, List.range, List.range.loop, trim, Arr.dropLast0, InRange, *])] at this
+    have hz : ∀ n : Nat, n < 1 → n = 0 := by omega
+    simp [embed, pad] at this
+    first | exact this | (simp_all; done) | (subst_vars; simp_all)
+  · obtain ⟨r, h1, h2, h3⟩ := mergeData_spec' blank _ 1 _ hne hsh (by omega) (by simp [trimShape, Singular, InRange, mergeShape, splitAll])
+    refine ⟨r, h1, by simp [h2, trimShape, Singular, InRange, mergeShape, splitAll], ?_⟩
+    intro x hx
+    obtain ⟨x0, x1, x2, rfl, h0', h1', h2'⟩ := inRange3 hx
+    have hxd : x1 < ([a,b,c] : List Nat).getD 1 0 := by simpa using h1'
+    have := h3 x1 _ (splitAll_get? _ 1 x1 hxd) [x0, 0, x2] (by simp [trimShape, Singular, InRange, mergeShape, splitAll, *])
+    rw [(split3 el a b c 1 x1 (by omega)).2 _ (by simp [splitData, splitSpecs, splitSpec, Arr.index, viewShape, List.range, List.range.loop, trim, Arr.dropLast0, InRange, *])] at this
+    have hz : ∀ n : Nat, n < 1 → n = 0 := by omega
+    simp [embed, pad] at this
+    first | exact this | (simp_all; done) | (subst_vars; simp_all)
+  · obtain ⟨r, h1, h2, h3⟩ := mergeData_spec' blank _ 2 _ hne hsh (by omega) (by simp [trimShape, Singular, InRange, mergeShape, splitAll])
+    refine ⟨r, h1, by simp [h2, trimShape, Singular, InRange, mergeShape, splitAll], ?_⟩
+    intro x hx
+    obtain ⟨x0, x1, x2, rfl, h0', h1', h2'⟩ := inRange3 hx
+    have hxd : x2 < ([a,b,c] : List Nat).getD 2 0 := by simpa using h2'
+    have := h3 x2 _ (splitAll_get? _ 2 x2 hxd) [x0, x1, 0] (by simp [trimShape, Singular, InRange, mergeShape, splitAll, *])
+    rw [(split3 el a b c 2 x2 (by omega)).2 _ (by simp [splitData, splitSpecs, splitSpec, Arr.index, viewShape, List.range, List.range.loop, trim, Arr.dropLast0, InRange, *])] at this
+    have hz : ∀ n : Nat, n < 1 → n = 0 := by omega
+    simp [embed, pad] at this
+    first | exact this | (simp_all; done) | (subst_vars; simp_all)
+
+theorem rt4 (blank : α) (el : List Nat → α) (a b c d dim : Nat) (hd : dim < 4) (hl : d ≠ 1) 
+    (hn : 0 < ([a,b,c,d] : List Nat).getD dim 0) :
+    ∃ r, mergeData blank (splitAll ⟨[a,b,c,d], el⟩ dim) dim = .ok r ∧ r.shape = [a,b,c,d] ∧
+      ∀ x, InRange [a,b,c,d] x → r.el x = el x := by
+  have hsh : ∀ p ∈ splitAll ⟨[a,b,c,d], el⟩ dim, p.shape = trimShape 4 (([a,b,c,d] : List Nat).set dim 1) := by
+    intro p hp
+    simp only [splitAll, List.mem_map, List.mem_range] at hp
+    obtain ⟨i, _, rfl⟩ := hp
+    exact (split4 el a b c d dim i hd).1
+  have hne : splitAll ⟨[a,b,c,d], el⟩ dim ≠ [] := by
+    intro h; have := congrArg List.length h; simp [splitAll] at this; simp at hn; omega
+  have hd' : dim = 0 ∨ dim = 1 ∨ dim = 2 ∨ dim = 3 := by omega
+  rcases hd' with h | h | h | h <;> subst h
+  · obtain ⟨r, h1, h2, h3⟩ := mergeData_spec' blank _ 0 _ hne hsh (by omega) (by simp [trimShape, Singular, InRange, mergeShape, splitAll, hl])
+    refine ⟨r, h1, by simp [h2, trimShape, Singular, InRange, mergeShape, splitAll, hl], ?_⟩
+    intro x hx
+    obtain ⟨x0, x1, x2, x3, rfl, h0', h1', h2', h3'⟩ := inRange4 hx
+    have hxd : x0 < ([a,b,c,d] : List Nat).getD 0 0 := by simpa using h0'
+    have := h3 x0 _ (splitAll_get? _ 0 x0 hxd) [0, x1, x2, x3] (by simp [trimShape, Singular, InRange, mergeShape, splitAll, hl, *])
+    rw [(split4 el a b c d 0 x0 (by omega)).2 _ (by simp [splitData, splitSpecs, splitSpec, Arr.index, viewShape, List.range, List.range.loop, trim, Arr.dropLast0, InRange, *])] at this
+    have hz : ∀ n : Nat, n < 1 → n = 0 := by omega
+    simp [embed, pad] at this
+    first | exact this | (simp_all; done) | (subst_vars; simp_all)
+  · obtain ⟨r, h1, h2, h3⟩ := mergeData_spec' blank _ 1 _ hne hsh (by omega) (by simp [trimShape, Singular, InRange, mergeShape, splitAll, hl])
+    refine ⟨r, h1, by simp [h2, trimShape, Singular, InRange, mergeShape, splitAll, hl], ?_⟩
+    intro x hx
+    obtain ⟨x0, x1, x2, x3, rfl, h0', h1', h2', h3'⟩ := inRange4 hx
+    have hxd : x1 < ([a,b,c,d] : List Nat).getD 1 0 := by simpa using h1'
+    have := h3 x1 _ (splitAll_get? _ 1 x1 hxd) [x0, 0, x2, x3] (by simp [trimShape, Singular, InRange, mergeShape, splitAll, hl, *])
+    rw [(split4 el a b c d 1 x1 (by omega)).2 _ (by simp [splitData, splitSpecs, splitSpec, Arr.index, viewShape, List.range, List.range.loop, trim, Arr.dropLast0, InRange, *])] at this
+    have hz : ∀ n : Nat, n < 1 → n = 0 := by omega
+    simp [embed, pad] at this
+    first | exact this | (simp_all; done) | (subst_vars; simp_all)
+  · obtain ⟨r, h1, h2, h3⟩ := mergeData_spec' blank _ 2 _ hne hsh (by omega) (by simp [trimShape, Singular, InRange, mergeShape, splitAll, hl])
+    refine ⟨r, h1, by simp [h2, trimShape, Singular, InRange, mergeShape, splitAll, hl], ?_⟩
+    intro x hx
+    obtain ⟨x0, x1, x2, x3, rfl, h0', h1', h2', h3'⟩ := inRange4 hx
+    have hxd : x2 < ([a,b,c,d] : List Nat).getD 2 0 := by simpa using h2'
+    have := h3 x2 _ (splitAll_get? _ 2 x2 hxd) [x0, x1, 0, x3] (by simp [trimShape, Singular, InRange, mergeShape, splitAll, hl, *])
+    rw [(split4 el a b c d 2 x2 (by omega)).2 _ (by simp [splitData, splitSpecs, splitSpec, Arr.index, viewShape, List.range, List.range.loop, trim, Arr.dropLast0, InRange, *])] at this
+    have hz : ∀ n : Nat, n < 1 → n = 0 := by omega
+    simp [embed, pad] at this
+    first | exact this | (simp_all; done) | (subst_vars; simp_all)
+  · obtain ⟨r, h1, h2, h3⟩ := mergeData_spec' blank _ 3 _ hne hsh (by omega) (by simp [trimShape, Singular, InRange, mergeShape, splitAll, hl])
+    refine ⟨r, h1, by simp [h2, trimShape, Singular, InRange, mergeShape, splitAll, hl], ?_⟩
+    intro x hx
+    obtain ⟨x0, x1, x2, x3, rfl, h0', h1', h2', h3'⟩ := inRange4 hx
+    have hxd : x3 < ([a,b,c,d] : List Nat).getD 3 0 := by simpa using h3'
+    have := h3 x3 _ (splitAll_get? _ 3 x3 hxd) [x0, x1, x2] (by simp [trimShape, Singular, InRange, mergeShape, splitAll, hl, *])
+    rw [(split4 el a b c d 3 x3 (by omega)).2 _ (by simp [splitData, splitSpecs, splitSpec, Arr.index, viewShape, List.range, List.range.loop, trim, Arr.dropLast0, InRange, *])] at this
+    have hz : ∀ n : Nat, n < 1 → n = 0 := by omega
+    simp [embed, pad] at this
+    first | exact this | (simp_all; done) | (subst_vars; simp_all)
+
+theorem rt5 (blank : α) (el : List Nat → α) (a b c d e dim : Nat) (hd : dim < 5) (hl : e ≠ 1) 
+    (hn : 0 < ([a,b,c,d,e] : List Nat).getD dim 0) :
+    ∃ r, mergeData blank (splitAll ⟨[a,b,c,d,e], el⟩ dim) dim = .ok r ∧ r.shape = [a,b,c,d,e] ∧
+      ∀ x, InRange [a,b,c,d,e] x → r.el x = el x := by
+  have hsh : ∀ p ∈ splitAll ⟨[a,b,c,d,e], el⟩ dim, p.shape = trimShape 5 (([a,b,c,d,e] : List Nat).set dim 1) := by
+    intro p hp
+    simp only [splitAll, List.mem_map, List.mem_range] at hp
+    obtain ⟨i, _, rfl⟩ := hp
+    exact (split5 el a b c d e dim i hd).1
+  have hne : splitAll ⟨[a,b,c,d,e], el⟩ dim ≠ [] := by
+    intro h; have := congrArg List.length h; simp [splitAll] at this; simp at hn; omega
+  have hd' : dim = 0 ∨ dim = 1 ∨ dim = 2 ∨ dim = 3 ∨ dim = 4 := by omega
+  rcases hd' with h | h | h | h | h <;> subst h
+  · obtain ⟨r, h1, h2, h3⟩ := mergeData_spec' blank _ 0 _ hne hsh (by omega) (by simp [trimShape, Singular, InRange, mergeShape, splitAll, hl])
+    refine ⟨r, h1, by simp [h2, trimShape, Singular, InRange, mergeShape, splitAll, hl], ?_⟩
+    intro x hx
+    obtain ⟨x0, x1, x2, x3, x4, rfl, h0', h1', h2', h3', h4'⟩ := inRange5 hx
+    have hxd : x0 < ([a,b,c,d,e] : List Nat).getD 0 0 := by simpa using h0'
+    have := h3 x0 _ (splitAll_get? _ 0 x0 hxd) [0, x1, x2, x3, x4] (by simp [trimShape, Singular, InRange, mergeShape, splitAll, hl, *])
+    rw [(split5 el a b c d e 0 x0 (by omega)).2 _ (by simp [splitData, splitSpecs, splitSpec, Arr.index, viewShape, List.range, List.range.loop, trim, Arr.dropLast0, InRange, *])] at this
+    have hz : ∀ n : Nat, n < 1 → n = 0 := by omega
+    simp [embed, pad] at this
+    first | exact this | (simp_all; done) | (subst_vars; simp_all)
+  · obtain ⟨r, h1, h2, h3⟩ := mergeData_spec' blank _ 1 _ hne hsh (by omega) (by simp [trimShape, Singular, InRange, mergeShape, splitAll, hl])
+    refine ⟨r, h1, by simp [h2, trimShape, Singular, InRange, mergeShape, splitAll, hl], ?_⟩
+    intro x hx
+    obtain ⟨x0, x1, x2, x3, x4, rfl, h0', h1', h2', h3', h4'⟩ := inRange5 hx
+    have hxd : x1 < ([a,b,c,d,e] : List Nat).getD 1 0 := by simpa using h1'
+    have := h3 x1 _ (splitAll_get? _ 1 x1 hxd) [x0, 0, x2, x3, x4] (by simp [trimShape, Singular, InRange, mergeShape, splitAll, hl, *])
+    rw [(split5 el a b c d e 1 x1 (by omega)).2 _ (by simp [splitData, splitSpecs, splitSpec, Arr.index, viewShape, List.range, List.range.loop, trim, Arr.dropLast0, InRange, *])] at this
+    have hz : ∀ n : Nat, n < 1 → n = 0 := by omega
+    simp [embed, pad] at this
+    first | exact this | (simp_all; done) | (subst_vars; simp_all)
+  · obtain ⟨r, h1, h2, h3⟩ := mergeData_spec' blank _ 2 _ hne hsh (by omega) (by simp [trimShape, Singular, InRange, mergeShape, splitAll, hl])
+    refine ⟨r, h1, by simp [h2, trimShape, Singular, InRange, mergeShape, splitAll, hl], ?_⟩
+    intro x hx
+    obtain ⟨x0, x1, x2, x3, x4, rfl, h0', h1', h2', h3', h4'⟩ := inRange5 hx
+    have hxd : x2 < ([a,b,c,d,e] : List Nat).getD 2 0 := by simpa using h2'
+    have := h3 x2 _ (splitAll_get? _ 2 x2 hxd) [x0, x1, 0, x3, x4] (by simp [trimShape, Singular, InRange, mergeShape, splitAll, hl, *])
+    rw [(split5 el a b c d e 2 x2 (by omega)).2 _ (by simp [splitData, splitSpecs, splitSpec, Arr.index, viewShape, List.range, List.range.loop, trim, Arr.dropLast0, InRange, *])] at this
+    have hz : ∀ n : Nat, n < 1 → n = 0 := by omega
+    simp [embed, pad] at this
+    first | exact this | (simp_all; done) | (subst_vars; simp_all)
+  · obtain ⟨r, h1, h2, h3⟩ := mergeData_spec' blank _ 3 _ hne hsh (by omega) (by simp [trimShape, Singular, InRange, mergeShape, splitAll, hl])
+    refine ⟨r, h1, by simp [h2, trimShape, Singular, InRange, mergeShape, splitAll, hl], ?_⟩
+    intro x hx
+    obtain ⟨x0, x1, x2, x3, x4, rfl, h0', h1', h2', h3', h4'⟩ := inRange5 hx
+    have hxd : x3 < ([a,b,c,d,e] : List Nat).getD 3 0 := by simpa using h3'
+    have := h3 x3 _ (splitAll_get? _ 3 x3 hxd) [x0, x1, x2, 0, x4] (by simp [trimShape, Singular, InRange, mergeShape, splitAll, hl, *])
+    rw [(split5 el a b c d e 3 x3 (by omega)).2 _ (by simp [splitData, splitSpecs, splitSpec, Arr.index, viewShape, List.range, List.range.loop, trim, Arr.dropLast0, InRange, *])] at this
+    have hz : ∀ n : Nat, n < 1 → n = 0 := by omega
+    simp [embed, pad] at this
+    first | exact this | (simp_all; done) | (subst_vars; simp_all)
+  · by_cases hp : d = 1
+    · obtain ⟨r, h1, h2, h3⟩ := mergeData_spec' blank _ 4 _ hne hsh (by omega) (by simp [trimShape, Singular, InRange, mergeShape, splitAll, hl, hp])
+      refine ⟨r, h1, by simp [h2, trimShape, Singular, InRange, mergeShape, splitAll, hl, hp], ?_⟩
+      intro x hx
+      obtain ⟨x0, x1, x2, x3, x4, rfl, h0', h1', h2', h3', h4'⟩ := inRange5 hx
+      have hxd : x4 < ([a,b,c,d,e] : List Nat).getD 4 0 := by simpa using h4'
+      have := h3 x4 _ (splitAll_get? _ 4 x4 hxd) [x0, x1, x2] (by simp [trimShape, Singular, InRange, mergeShape, splitAll, hl, hp, *])
+      rw [(split5 el a b c d e 4 x4 (by omega)).2 _ (by simp [splitData, splitSpecs, splitSpec, Arr.index, viewShape, List.range, List.range.loop, trim, Arr.dropLast0, InRange, *])] at this
+      have hz : ∀ n : Nat, n < 1 → n = 0 := by omega
+      simp [embed, pad] at this
+      first | exact this | (simp_all; done) | (subst_vars; simp_all)
+    · obtain ⟨r, h1, h2, h3⟩ := mergeData_spec' blank _ 4 _ hne hsh (by omega) (by simp [trimShape, Singular, InRange, mergeShape, splitAll, hl, hp])
+      refine ⟨r, h1, by simp [h2, trimShape, Singular, InRange, mergeShape, splitAll, hl, hp], ?_⟩
+      intro x hx
+      obtain ⟨x0, x1, x2, x3, x4, rfl, h0', h1', h2', h3', h4'⟩ := inRange5 hx
+      have hxd : x4 < ([a,b,c,d,e] : List Nat).getD 4 0 := by simpa using h4'
+      have := h3 x4 _ (splitAll_get? _ 4 x4 hxd) [x0, x1, x2, x3] (by simp [trimShape, Singular, InRange, mergeShape, splitAll, hl, hp, *])
+      rw [(split5 el a b c d e 4 x4 (by omega)).2 _ (by simp [splitData, splitSpecs, splitSpec, Arr.index, viewShape, List.range, List.range.loop, trim, Arr.dropLast0, InRange, *])] at this
+      have hz : ∀ n : Nat, n < 1 → n = 0 := by omega
+      simp [embed, pad] at this
+      first | exact this | (simp_all; done) | (subst_vars; simp_all)
+
+
+
+/-- **splitting an image and merging the pieces back reproduces its voxel data**: any 3- to 5-D
+    array without trailing singular axes beyond the third, any axis of non-zero length -/
+theorem merge_split_data (blank : α) (a : Arr α) (dim : Nat) (h3 : 3 ≤ a.shape.length)
+    (h5 : a.shape.length ≤ 5) (hd : dim < a.shape.length)
+    (htrim : trimShape a.shape.length a.shape = a.shape) (hn : 0 < a.shape.getD dim 0) :
+    ∃ r, mergeData blank (splitAll a dim) dim = .ok r ∧ r.shape = a.shape ∧
+      ∀ x, InRange a.shape x → r.el x = a.el x := by
+  obtain ⟨shape, el⟩ := a
+  match shape, h3, h5, hd, htrim, hn with
+  | [a, b, c], _, _, hd, _, hn => exact rt3 blank el a b c dim hd hn
+  | [a, b, c, d], _, _, hd, ht, hn =>
+    have hl : d ≠ 1 := by
+      intro h; subst h; have := congrArg List.length ht; simp [trimShape] at this
+    exact rt4 blank el a b c d dim hd hl hn
+  | [a, b, c, d, e], _, _, hd, ht, hn =>
+    have hl : e ≠ 1 := by
+      intro h; subst h
+      have := congrArg List.length ht
+      by_cases hd1 : d = 1 <;> simp [trimShape, hd1] at this
+    exact rt5 blank el a b c d e dim hd hl hn
+  | [], h3, _, _, _, _ | [_], h3, _, _, _, _ | [_, _], h3, _, _, _, _ => simp at h3
+  | _ :: _ :: _ :: _ :: _ :: _ :: _, _, h5, _, _, _ => simp at h5
+
+/-! ### split, then merge: the affine -/
+
+theorem sq_pos' (x : Int) (h : x ≠ 0) : 0 < x * x := by
+  rcases Int.lt_or_gt_of_ne h with h | h
+  · exact Int.mul_pos_of_neg_of_neg h h
+  · exact Int.mul_pos h h
+
+theorem sq_nonneg' (x : Int) : 0 ≤ x * x := by
+  by_cases h : x = 0
+  · simp [h]
+  · exact Int.le_of_lt (sq_pos' x h)
+
+theorem V3.dot_self_pos (u : V3) (h : u ≠ V3.zero) : 0 < V3.dot u u := by
+  obtain ⟨x, y, z⟩ := u
+  have hne : ¬ (x = 0 ∧ y = 0 ∧ z = 0) := by
+    rintro ⟨rfl, rfl, rfl⟩; exact h rfl
+  have hx := sq_nonneg' x; have hy := sq_nonneg' y; have hz := sq_nonneg' z
+  simp only [V3.dot]
+  by_cases h1 : x = 0
+  · by_cases h2 : y = 0
+    · have h3 : z ≠ 0 := fun h3 => hne ⟨h1, h2, h3⟩
+      have := sq_pos' z h3; omega
+    · have := sq_pos' y h2; omega
+  · have := sq_pos' x h1; omega
+
+theorem V3.sameDir_self (u : V3) (h : u ≠ V3.zero) : V3.sameDir u u = true := by
+  have hc : V3.cross u u = V3.zero := by
+    simp only [V3.cross, V3.zero, V3.mk.injEq]
+    refine ⟨?_, ?_, ?_⟩ <;> grind
+  simp [V3.sameDir, hc, V3.dot_self_pos u h]
+
+theorem shift_col (A : Aff) (v : V3) (ax : Nat) : (A.shift v).col ax = A.col ax := by
+  match ax with
+  | 0 => rfl
+  | 1 => rfl
+  | _ + 2 => rfl
+
+theorem setCol_col_self (A : Aff) (dim : Nat) (hd : dim < 3) : A.setCol dim (A.col dim) = A := by
+  match dim, hd with
+  | 0, _ => rfl
+  | 1, _ => rfl
+  | 2, _ => rfl
+
+theorem mergeAccept_iff' (affs : List Aff) (first : Aff) (dim : Nat) (h0 : affs[0]? = some first) :
+    mergeAccept affs dim = true ↔
+      ∀ (i : Nat) (a : Aff), affs[i]? = some a →
+        (∀ ax, ax < 3 → ax ≠ dim → a.col ax = first.col ax) ∧
+        (dim < 3 → V3.sameDir (a.col dim) (first.col dim) = true ∧
+          ∀ p, prevOf none affs i = some p →
+            a.t.sub p ≠ V3.zero ∧ V3.sameDir (a.t.sub p) (a.col dim) = true) := by
+  cases affs with
+  | nil => simp at h0
+  | cons f rest =>
+    simp at h0; subst h0
+    exact mergeAccept_iff f rest dim
+
+/-- **the pieces of a split are accepted by the merge and give the parent's affine back**: any
+    number of pieces; for a spatial axis the axis must not be degenerate (zero column) -/
+theorem merge_split_affs (h : Hdr) (dim n : Nat) (hn : 0 < n)
+    (hu : dim < 3 → h.best.col dim ≠ V3.zero) :
+    mergeAccept (splitAffs h dim n) dim = true ∧ mergeAff (splitAffs h dim n) dim = some h.best := by
+  have hget := fun i (hi : i < n) => splitAffs_get h dim n i hi
+  have h0 : (splitAffs h dim n)[0]? = some h.best := by
+    rw [hget 0 hn]
+    by_cases hd : dim < 3 <;> simp [hd, V3.smul_zero', Aff.shift_zero]
+  constructor
+  · rw [mergeAccept_iff' _ _ dim h0]
+    intro i a hi
+    have hlt : i < n := by
+      have := (List.getElem?_eq_some_iff.1 hi).1
+      simpa [splitAffs_length] using this
+    rw [hget i hlt] at hi
+    by_cases hd : dim < 3
+    · simp only [hd, if_true, Option.some.injEq] at hi
+      subst hi
+      refine ⟨fun ax _ _ => shift_col _ _ ax, fun _ => ⟨?_, ?_⟩⟩
+      · rw [shift_col]; exact V3.sameDir_self _ (hu hd)
+      · intro p hp
+        cases i with
+        | zero => simp [prevOf] at hp
+        | succ j =>
+          have hj : (splitAffs h dim n)[j]? =
+              some (h.best.shift (V3.smul (j : Int) (h.best.col dim))) := by
+            rw [hget j (by omega)]; simp [hd]
+          simp only [prevOf, Nat.add_one_ne_zero, if_false, Nat.add_sub_cancel, hj, Option.map_some,
+            Option.some.injEq] at hp
+          subst hp
+          have hdiff : ((h.best.shift (V3.smul ((j + 1 : Nat) : Int) (h.best.col dim))).t.sub
+              (h.best.shift (V3.smul (j : Int) (h.best.col dim))).t) = h.best.col dim := by
+            simp only [Aff.shift, V3.add, V3.sub, V3.smul, Int.natCast_add, Int.natCast_one]
+            apply V3.ext' <;> simp only [] <;> grind
+          rw [hdiff, shift_col]
+          exact ⟨hu hd, V3.sameDir_self _ (hu hd)⟩
+    · simp only [hd, if_false, Option.some.injEq] at hi
+      subst hi
+      exact ⟨fun _ _ _ => rfl, fun hd' => absurd hd' hd⟩
+  · by_cases hn1 : n = 1
+    · subst hn1
+      have : splitAffs h dim 1 = [h.best] := by
+        apply List.ext_getElem?
+        intro i
+        cases i with
+        | zero => simpa using h0
+        | succ j =>
+          have : (splitAffs h dim 1).length = 1 := splitAffs_length h dim 1
+          simp [List.getElem?_eq_none, this]
+      simp [this, mergeAff]
+    · have h1 := hget 1 (by omega)
+      obtain ⟨f, s, rest, hl⟩ : ∃ f s rest, splitAffs h dim n = f :: s :: rest := by
+        have hlen := splitAffs_length h dim n
+        match hs : splitAffs h dim n with
+        | [] => simp [hs] at hlen; omega
+        | [_] => simp [hs] at hlen; omega
+        | f :: s :: rest => exact ⟨f, s, rest, rfl⟩
+      rw [hl] at h0 h1
+      simp only [List.getElem?_cons_zero, Option.some.injEq] at h0
+      simp only [List.getElem?_cons_succ, List.getElem?_cons_zero] at h1
+      rw [hl]
+      by_cases hd : dim < 3
+      · simp only [hd, if_true, Option.some.injEq] at h1
+        subst h0; subst h1
+        simp only [mergeAff, hd, if_true, Option.some.injEq]
+        have : (h.best.shift (V3.smul ((1 : Nat) : Int) (h.best.col dim))).t.sub h.best.t =
+            h.best.col dim := by
+          simp only [Aff.shift, V3.add, V3.sub, V3.smul]
+          apply V3.ext' <;> simp only [] <;> grind
+        rw [this]
+        exact setCol_col_self h.best dim hd
+      · subst h0
+        simp [mergeAff, hd]
+
+/-! ### the fill of `DicomStack.get_data` -/
+
+/-- **every output voxel holds the pixel of the file `get_data` assigns to its slice / time /
+    vector position** (5-D fill, before trimming) -/
+theorem stackFill_el (files : List (Arr α)) (blank : α) (rows cols S T V : Nat)
+    (i j s t v : Nat) (f : Arr α) (hf : files[v * (T * S) + t * S + s]? = some f) :
+    (stackFill files blank rows cols S T V).el [i, j, s, t, v] = f.el [i, j, 0] := by
+  simp [stackFill, hf]
+
+/-- trimming unused time / vector axes keeps every voxel -/
+theorem stackData_el (files : List (Arr α)) (blank : α) (rows cols S T V : Nat)
+    (i j s t v : Nat) (f : Arr α) (hf : files[v * (T * S) + t * S + s]? = some f)
+    (ht : t < T) (hv : v < V) :
+    ((stackData files blank rows cols S T V).shape =
+      if V = 1 then (if T = 1 then [rows, cols, S] else [rows, cols, S, T])
+      else [rows, cols, S, T, V]) ∧
+    (stackData files blank rows cols S T V).el
+        (if V = 1 then (if T = 1 then [i, j, s] else [i, j, s, t]) else [i, j, s, t, v]) =
+      f.el [i, j, 0] := by
+  by_cases hV : V = 1
+  · have hv0 : v = 0 := by omega
+    by_cases hT : T = 1
+    · have ht0 : t = 0 := by omega
+      subst hV hT hv0 ht0
+      simp [stackData, stackTrim, Arr.dropLast0, stackFill] at hf ⊢
+      simp [hf]
+    · subst hV hv0
+      simp [stackData, stackTrim, Arr.dropLast0, stackFill, hT] at hf ⊢
+      simp [hf]
+  · simp [stackData, stackTrim, stackFill, hV, hf]
+
+/-- **the stack affine sends slice index `s` to where file `s` of the first volume lies**: files
+    of the first volume at positions `p0 + s·step`, all with the first file's in-plane axes -/
+theorem stackAff_consistent (a b : Aff) (rest : List Aff) (S : Nat) (hS : 1 < S)
+    (s : Nat) (f : Aff) (_hf : (a :: b :: rest)[s]? = some f)
+    (hc0 : f.c0 = a.c0) (hc1 : f.c1 = a.c1)
+    (ht : f.t = a.t.add (V3.smul (s : Int) (b.t.sub a.t))) (x y : Int) :
+    ∃ R, stackAff (a :: b :: rest) S = some R ∧ R.apply x y (s : Int) = f.apply x y 0 := by
+  refine ⟨a.setCol 2 (b.t.sub a.t), by simp [stackAff, hS], ?_⟩
+  simp only [Aff.apply, Aff.setCol, ht, hc0, hc1, V3.add, V3.smul, V3.sub, V3.mk.injEq]
+  refine ⟨?_, ?_, ?_⟩ <;> grind
 
 end Wrap
